@@ -80,6 +80,25 @@ CHECKS = {
         "No reference model: purely differential, so it cannot see a defect shared by all types (C09-C11 cover those).",
         "DESIGN.md §4 C17",
     ),
+
+    "C04": (
+        "exhaustive enumeration: all dates x every date token spelling x 3 types, all seconds x every time token, all microseconds x FF/FF1-9, interval value grids, every token sequence of length <= 3 x value pools of all six types, against an integer-arithmetic reference renderer",
+        "Every (value, picture) pair of the enumerated spaces is formatted by the real code and must equal, byte for byte, the reference rendering of the reference token sequence; every (token, type) pair is also pushed through value.format(..) + write! into a String sink, where an inapplicable token must surface as an error and never as text or a panic.",
+        "Trusted: refmodel/picture.rs renderer and applicability table, own name tables. Output case of mixed-case AM/PM spellings is compared case-insensitively (undefined by the property). Pictures longer than 3 tokens are covered by the rotation family only.",
+        "DESIGN.md §4 C04",
+    ),
+    "C05": (
+        "model = generator: exhaustive (year, day-of-year) pairs, all dates x 9 pictures x weekday consistency, all seconds x 7 clock notations x 3 types, all 6/7-digit (thorough 8-digit) fractions and nine-digit ties, carry chain, deviation-bounded lenient spellings (<= 3 quick / 4 thorough deviations at all positions), rejection families",
+        "Texts are generated from (type, picture, value, spelling choices), so the denoted value is known by construction; every generated text is parsed by the real code and must return exactly that value; every text of the rejection families (out-of-domain component, disagreeing redundant fields, repeated code, HH24 with meridian, output-only / inapplicable code, left-over input) must fail with an error. The deviation is the unit of the bound (iterative-context-bounding transplanted to a parser): all combinations of at most k lenient spellings at all positions are enumerated.",
+        "Trusted: refmodel renderer + spell.rs generator and its 'denoted value' function. Spellings the properties leave open (12-hour field without meridian, partial dates, partial interval pictures, ambiguous digit runs) are not generated. Input texts outside the generated families are not covered.",
+        "DESIGN.md §4 C05",
+    ),
+    "C19": (
+        "bounded language enumeration: every string of length <= 5 (thorough 6) over a 40-symbol alphabet, every token spelling at positions 34..38, rotations of the token list up to 40 tokens, blank runs of every length 1..=600, against a reference longest-match tokenizer through a probe rendering",
+        "Each string is compiled by the real Formatter::try_new; it must be accepted iff the reference tokenizer splits it into at most 36 documented tokens, rejection must be Error::InvalidFormat, and on acceptance the text produced for a probe timestamp with pairwise distinct field renderings must equal the reference rendering of the reference token sequence — which identifies the token sequence, the name style chosen from the first two letters and the blank-run length.",
+        "Trusted: refmodel tokenizer/renderer. The lexer looks ahead at most 5 bytes and carries no state between tokens, so length <= 6 covers every first-token decision with every following byte; longer pictures are covered by the token-sequence and blank-run families only.",
+        "DESIGN.md §4 C19",
+    ),
 }
 
 NOT_BUILT_REASON = "check not built yet in this round (work in progress; planned in DESIGN.md §4) — not claimed until its machinery exists and passes on the unchanged tree"
